@@ -101,6 +101,12 @@ class rewrite:
             kind, fn = classmethod, raw.__func__
         elif isinstance(raw, property):
             kind, fn = property, raw.fget
+        wrapper = None
+        if getattr(fn, "__qualname__", "").startswith("cli_command.<locals>") and fn.__closure__:
+            # a CLI entry point: mutate the function wrapped by @cli_command
+            from conductor.utils.user_code import cli_command
+            wrapper = cli_command
+            fn = [c.cell_contents for c in fn.__closure__ if callable(c.cell_contents)][0]
         try:
             src = textwrap.dedent(inspect.getsource(fn))
         except (OSError, TypeError):
@@ -114,6 +120,8 @@ class rewrite:
         ns = {}
         exec(compile("\n".join(lines) + "\n", "<canary %s>" % self.qualname, "exec"), mod.__dict__, ns)
         newfn = ns[fn.__name__]
+        if wrapper is not None:
+            newfn = wrapper(newfn)
         if kind is property:
             newobj = property(newfn, raw.fset, raw.fdel)
         elif kind is not None:
